@@ -197,6 +197,76 @@ theorem insertInput_spec (g : Nat → Nat → Nat) (hg : ∀ n c, n ≤ g n c) :
     · simp only [insertInput, he1, ok_bind]; exact he2
     · rw [← insertAt_insertAt_one l pos hp x xs]; exact ho2
 
+/-! ### element access by reference -/
+
+theorem refOff_spec {h : Heap} {v : RV} {l : List Int} (ho : Owns h v l) (a : Acc) (i : Nat) (hi : accIdx l a = some i) :
+    v.refOff a = .ok i ∧ i < l.length := by
+  have hlen := ho.1
+  cases a with
+  | index j =>
+    simp only [accIdx] at hi
+    split at hi
+    · next hj =>
+      simp only [Option.some.injEq] at hi; subst hi
+      exact ⟨by simp only [RV.refOff]; rw [if_pos (by omega)], hj⟩
+    · cases hi
+  | front =>
+    simp only [accIdx] at hi
+    split at hi
+    · next hj =>
+      simp only [Option.some.injEq] at hi; subst hi
+      exact ⟨by simp only [RV.refOff]; rw [if_pos (by omega)], by omega⟩
+    · cases hi
+  | back =>
+    simp only [accIdx] at hi
+    split at hi
+    · next hj =>
+      simp only [Option.some.injEq] at hi; subst hi
+      exact ⟨by simp only [RV.refOff]; rw [if_pos (by omega), hlen], by omega⟩
+    · cases hi
+
+/-- reading through `v[i]`, `front()`, `back()` yields the list element -/
+theorem readRef_spec {h : Heap} {v : RV} {l : List Int} (ho : Owns h v l) (a : Acc) (i : Nat) (hi : accIdx l a = some i) :
+    ∃ x, l[i]? = some x ∧ readRef h v a = .ok x := by
+  obtain ⟨hoff, hil⟩ := refOff_spec ho a i hi
+  obtain ⟨b, hbase⟩ := ho.base_some (by omega)
+  obtain ⟨hlen, hcap, hb⟩ := ho
+  rw [hbase] at hb
+  obtain ⟨c, hslot, hc⟩ := hb
+  refine ⟨l[i], List.getElem?_eq_getElem hil, ?_⟩
+  simp only [readRef, hoff, RV.ptr, hbase, ok_bind]
+  exact Heap.read_ok hslot (by omega) (by rw [hc i hil]; exact List.getElem?_eq_getElem hil)
+
+/-- storing through the returned reference changes exactly that element -/
+theorem writeRef_spec {h : Heap} {v : RV} {l : List Int} (hwf : HeapWf h) (ho : Owns h v l) (a : Acc) (x : Int) (i : Nat)
+    (hi : accIdx l a = some i) :
+    ∃ h', writeRef h v a x = .ok h' ∧ Owns h' v (l.set i x) ∧ Frame h v.base h' v.base := by
+  obtain ⟨hoff, hil⟩ := refOff_spec ho a i hi
+  obtain ⟨b, hbase⟩ := ho.base_some (by omega)
+  obtain ⟨hlen, hcap, hb⟩ := ho
+  rw [hbase] at hb
+  obtain ⟨c, hslot, hc⟩ := hb
+  have hlt := hwf.lt hslot
+  refine ⟨h.set b (some ⟨v.cap, fun j => if j = i then some x else c j⟩), ?_, ⟨by simpa using hlen, hcap, ?_⟩, ?_⟩
+  · simp only [writeRef, hoff, RV.ptr, hbase, ok_bind]
+    exact Heap.write_ok x hslot (by omega)
+  · rw [hbase]
+    refine ⟨_, Heap.set_slot_self _ _ _, ?_⟩
+    intro j hj
+    simp only [List.length_set] at hj
+    by_cases hji : j = i
+    · subst hji; simp [hil]
+    · rw [if_neg hji, List.getElem?_set_ne (Ne.symm hji)]
+      exact hc j hj
+  · refine ⟨Nat.le_refl _, ?_, ?_, Or.inl rfl⟩
+    · intro k hk
+      simp only [Heap.set_next] at hk
+      rw [Heap.set_slot_ne _ _ _ _ (by omega)]
+      exact hwf k hk
+    · intro k hk1 _
+      have h2 : k ≠ b := fun hx => hk1 (by rw [hx, hbase])
+      exact Heap.set_slot_ne _ _ _ _ h2
+
 /-- every valid single-vector operation: no fault, refines the list operation, returns the specified offset -/
 theorem vstep_spec (g : Nat → Nat → Nat) (hg : ∀ n c, n ≤ g n c) {h : Heap} {v : RV} {l : List Int}
     (hwf : HeapWf h) (ho : Owns h v l) (o : VOp) (l' : List Int) (ret : Option Nat) (hs : svstep l o = some (l', ret)) :
@@ -325,5 +395,28 @@ theorem vstep_spec (g : Nat → Nat → Nat) (hg : ∀ n c, n ≤ g n c) {h : He
     obtain ⟨h', v', he, ho', hf⟩ := eraseR_spec hwf ho 0 v.last (by omega) (by omega)
     refine ⟨h', v', by simp only [vstep, clear, he, ok_bind, pure_eq_ok], ?_, hf⟩
     rw [← hlen, List.drop_length] at ho'; simpa using ho'
+  | assign a x =>
+    simp only [svstep, Option.map_eq_some_iff, Prod.mk.injEq] at hs
+    obtain ⟨i, hi, rfl, rfl⟩ := hs
+    obtain ⟨h', he, ho', hf⟩ := writeRef_spec hwf ho a x i hi
+    exact ⟨h', v, by simp only [vstep, he, ok_bind, pure_eq_ok], ho', hf⟩
+  | insertSelf pos a b =>
+    simp only [svstep] at hs
+    split at hs
+    · next hp =>
+      simp only [Option.some.injEq, Prod.mk.injEq] at hs
+      obtain ⟨rfl, rfl⟩ := hs
+      simp only [vstep, insertSelf]
+      rw [if_neg (by omega), if_neg (by omega)]
+      by_cases hab : a = b
+      · rw [if_pos hab]
+        subst hab
+        refine ⟨h, v, rfl, ?_, Frame.refl hwf _⟩
+        simpa [insertAt_nil] using ho
+      · rw [if_neg hab]
+        obtain ⟨h', v', he, ho', hf⟩ := insertGen_spec g hg hwf ho pos hp.2.2 (.self a b) ((l.drop a).take (b - a))
+          (by simp only [Mid.den]; rw [if_pos ⟨hp.1, by omega⟩]) (fun a' b' heq => by cases heq; omega)
+        exact ⟨h', v', by simp only [he, ok_bind, pure_eq_ok], ho', hf⟩
+    · cases hs
 
 end Fcppt.C07
